@@ -2,6 +2,10 @@ package main
 
 import (
 	"bytes"
+	"crypto/ecdsa"
+	crand "crypto/rand"
+	"crypto/sha256"
+	"crypto/sha512"
 	"encoding/binary"
 	"encoding/json"
 	"fmt"
@@ -85,6 +89,18 @@ func (c *totalCtx) measure(parser, note string, input []byte, fn func() error) {
 	if c.n%64 == 0 {
 		debug.FreeOSMemory()
 	}
+}
+
+// rawEcdsa signs with any ECDSA key (SHA-512 digest for P-521, SHA-256 otherwise), as a foreign signer would
+type rawEcdsa struct{ key *ecdsa.PrivateKey }
+
+func (a *rawEcdsa) Sign(m []byte) ([]byte, error) {
+	if a.key.Curve.Params().BitSize > 384 {
+		h := sha512.Sum512(m)
+		return ecdsa.SignASN1(crand.Reader, a.key, h[:])
+	}
+	h := sha256.Sum256(m)
+	return ecdsa.SignASN1(crand.Reader, a.key, h[:])
 }
 
 func be8(n uint64) []byte { var b [8]byte; binary.BigEndian.PutUint64(b[:], n); return b[:] }
@@ -366,6 +382,67 @@ func totalRun(args []string) error {
 			}
 			fn := parsers["bundle.Read"]
 			c.measure("bundle.Read", fmt.Sprintf("validly signed unusual subset %s #%d", ver, variant), f, func() error { return fn(f) })
+		}
+	}
+	// (4c) artefacts whose certificate carries a key the library does not sign with (ECDSA on P-521 / P-224), signed here
+	// with that key: the verifiers meet such certificates in the wild and must answer with a verdict
+	for _, curve := range []string{"p521", "p224"} {
+		kco := newKeyCert(curve, []string{"a.example"}, 0)
+		alg := &rawEcdsa{kco.key}
+		for _, ver := range version.AllVersions {
+			sp := baseSpec(r, ver)
+			sp.date, sp.expires = 1600000000-10, 1600000000+3600
+			se := prepareEx(sp)
+			if se.err != "" {
+				continue
+			}
+			signEx(se, sp, kco, alg)
+			if se.err != "" {
+				continue
+			}
+			var fb bytes.Buffer
+			if err := se.e.Write(&fb); err != nil {
+				continue
+			}
+			in := fb.Bytes()
+			c.measure("sxg.ReadExchange+Verify", fmt.Sprintf("signed with an ECDSA %s key, %s", curve, ver), in, func() error {
+				e, err := sxg.ReadExchange(bytes.NewReader(in))
+				if err == nil {
+					e.Verify(time.Unix(1600000000, 0), func(string) ([]byte, error) { return kco.chain, nil }, quiet)
+				}
+				return err
+			})
+		}
+		for _, ver := range []bversion.Version{bversion.VersionB1, bversion.VersionB2} {
+			b := &bundle.Bundle{Version: ver}
+			u, _ := url.Parse("https://a.example/")
+			b.PrimaryURL = u
+			b.Exchanges = []*bundle.Exchange{{Request: bundle.Request{URL: u}, Response: bundle.Response{Status: 200, Header: map[string][]string{"Content-Type": {"text/html"}}, Body: []byte("body")}}}
+			ch, _ := certurl.NewCertChain(kco.certs, []byte("ocsp"), nil)
+			vu, _ := url.Parse("https://a.example/validity")
+			sg, err := signature.NewSigner(ver, ch, kco.key, vu, time.Unix(1600000000-10, 0), time.Hour)
+			if err != nil {
+				continue
+			}
+			sg.Algorithm = alg
+			pih, err := b.Exchanges[0].AddPayloadIntegrity(ver, 16)
+			if err != nil {
+				continue
+			}
+			if sg.AddExchange(b.Exchanges[0], pih) != nil {
+				continue
+			}
+			sigs, err := sg.UpdateSignatures(nil)
+			if err != nil {
+				continue
+			}
+			b.Signatures = sigs
+			f, _, werr, _ := writeBundle(b, "plain")
+			if werr != nil {
+				continue
+			}
+			fn := parsers["bundle.Read"]
+			c.measure("bundle.Read", fmt.Sprintf("signed with an ECDSA %s key, %s", curve, ver), f, func() error { return fn(f) })
 		}
 	}
 	// (5) VALID signed exchanges (signed here, verifiable by the parser's certificate at its fixed instant) over every status
